@@ -45,6 +45,7 @@ type Exec struct {
 	Counters map[string]int
 	Coarse   bool
 	Horizon  int
+	Starve   int
 	Trace    bool
 	// TerminationPromised: deadlock/livelock are violations of the property under check.
 	TerminationPromised bool
@@ -129,6 +130,7 @@ func (x *Exec) Threads(bodies ...func()) bool {
 	}
 	s := vsched.New(x.prefix, x.Horizon)
 	s.Coarse = x.Coarse
+	s.StarveCap = x.Starve
 	if x.Trace {
 		s.EnableTrace()
 	}
@@ -175,6 +177,7 @@ type Job struct {
 	BudgetS  int             `json:"budget_s"` // wall-clock cap; reaching it ends the job with exhaustive=false
 	Coarse   bool            `json:"coarse,omitempty"`
 	Horizon  int             `json:"horizon,omitempty"`
+	Starve   int             `json:"starve,omitempty"` // starvation deviation: a continued spinner keeps spinning for up to this many yields
 	Terminat bool            `json:"termination_promised,omitempty"`
 	MinObs   int             `json:"min_obs,omitempty"` // vacuity: minimum distinct observations expected
 	Need     []string        `json:"need,omitempty"`    // vacuity: counters that must be > 0
@@ -254,7 +257,7 @@ func OtterFrames(stack string) string {
 func (e *explorer) runOnce(prefix []uint8, trace bool) *Exec {
 	defer Progress.Add(1)
 	vdet.Reset()
-	x := &Exec{prefix: prefix, Coarse: e.job.Coarse, Horizon: e.job.Horizon, Trace: trace, TerminationPromised: e.job.Terminat}
+	x := &Exec{prefix: prefix, Coarse: e.job.Coarse, Horizon: e.job.Horizon, Starve: e.job.Starve, Trace: trace, TerminationPromised: e.job.Terminat}
 	func() {
 		defer func() {
 			if r := recover(); r != nil {
